@@ -254,12 +254,35 @@ func runDeclCheck(c *Ctx, r *Reporter) {
 				neg = !neg
 				cond = u.X
 			}
+			isName := isNameOfParam
+			// a predicate of the package that makes the look-up for the name it is handed (p.isFuncName(name))
+			if hc, ok := cond.(*ssa.Call); ok {
+				h := hc.Call.StaticCallee()
+				if h == nil || h.Pkg != valSSA.Pkg || len(h.Blocks) == 0 {
+					return 0, false
+				}
+				rets := returnsOf(h)
+				if len(rets) != 1 || len(rets[0].Results) != 1 {
+					return 0, false
+				}
+				var hname ssa.Value
+				for i, a := range hc.Call.Args {
+					if isNameOfParam(a) && i < len(h.Params) {
+						hname = h.Params[i]
+					}
+				}
+				if hname == nil {
+					return 0, false
+				}
+				cond = rets[0].Results[0]
+				isName = func(v ssa.Value) bool { return v == hname }
+			}
 			ex, ok := cond.(*ssa.Extract)
 			if !ok || ex.Index != 1 {
 				return 0, false
 			}
 			lk, ok := ex.Tuple.(*ssa.Lookup)
-			if !ok || !lk.CommaOk || !isNameOfParam(lk.Index) || !loadsField(lk.X, field) {
+			if !ok || !lk.CommaOk || !isName(lk.Index) || !loadsField(lk.X, field) {
 				return 0, false
 			}
 			if neg {
